@@ -35,6 +35,24 @@ pub struct SchedState {
     /// validators whose dissemination traffic for the given slots is withheld (repair trigger)
     pub withhold: BTreeMap<usize, BTreeSet<u64>>,
     pub delivered_late: u64,
+    /// directed rival-split script: notarization votes for `slot` between the two validators in `pair`
+    /// are held back, and notarization certificates for `slot` travel slowly (see clusterrun)
+    pub rival: Option<RivalSched>,
+}
+
+#[derive(Clone, Debug)]
+pub struct RivalSched {
+    pub pair: (usize, usize),
+    pub slot: Option<u64>,
+    pub vote_delay: Duration,
+    pub cert_delay: Duration,
+    pub held_votes: u64,
+    pub held_certs: u64,
+    /// leader of the following window: everything naming version A reaches it late, so that version B
+    /// becomes its first ready parent
+    pub next_leader: usize,
+    pub hash_a: Option<H32>,
+    pub hold_a: Duration,
 }
 
 pub fn chaos_profiles() -> Vec<Chaos> {
@@ -56,6 +74,38 @@ pub fn install_scheduler(cl: &Cluster, st: Arc<Mutex<SchedState>>) {
                 if let Some(p) = ShredParts::parse(&d.bytes) {
                     if slots.contains(&p.slot) {
                         return vec![];
+                    }
+                }
+            }
+        }
+        if d.to.0 == Ep::All2All && d.from.1 != d.to.1 {
+            if let Some(r) = s.rival.clone() {
+                if let Some(slot) = r.slot {
+                    match crate::wire::de_consensus(&d.bytes) {
+                        Some(ConsensusMessage::Vote(v)) => {
+                            let m = crate::poolsim::mvote_of(&v);
+                            let between = (d.from.1 == r.pair.0 && d.to.1 == r.pair.1) || (d.from.1 == r.pair.1 && d.to.1 == r.pair.0);
+                            if between && m.slot == slot && m.kind == VK::Notar {
+                                s.rival.as_mut().unwrap().held_votes += 1;
+                                return vec![r.vote_delay];
+                            }
+                            if d.to.1 == r.next_leader && m.slot == slot && m.hash.is_some() && m.hash == r.hash_a {
+                                s.rival.as_mut().unwrap().held_votes += 1;
+                                return vec![r.hold_a];
+                            }
+                        }
+                        Some(ConsensusMessage::Cert(c)) => {
+                            let m = crate::poolsim::mcert_of(&c);
+                            if m.slot == slot && matches!(m.kind, CK::Notar) {
+                                s.rival.as_mut().unwrap().held_certs += 1;
+                                return vec![r.cert_delay];
+                            }
+                            if d.to.1 == r.next_leader && m.slot == slot && m.hash.is_some() && m.hash == r.hash_a {
+                                s.rival.as_mut().unwrap().held_certs += 1;
+                                return vec![r.hold_a];
+                            }
+                        }
+                        None => {}
                     }
                 }
             }
@@ -99,11 +149,16 @@ pub enum ByzVote {
     Split,
     FakeBlock,
     LateFinal,
+    /// rival-split script: notarizes both versions (version A only towards the Y group, so that the X
+    /// group sees nothing but its own votes for A), finalization vote to everybody
+    RivalScript,
 }
 
 pub const BYZ_VOTE_MODES: [ByzVote; 6] = [ByzVote::Silent, ByzVote::HonestLooking, ByzVote::Amplify, ByzVote::Split, ByzVote::FakeBlock, ByzVote::LateFinal];
 
 pub struct ByzState {
+    /// rival-split script: the validators that received version A
+    pub rival_x_group: Vec<usize>,
     pub mode: BTreeMap<usize, ByzVote>,
     pub seen_blocks: BTreeSet<Bid>,
     pub acted: BTreeSet<(usize, u64, H32)>,
@@ -119,6 +174,7 @@ pub struct ByzState {
 impl ByzState {
     pub fn new(byz: &BTreeSet<usize>, rng: &mut SRng) -> Self {
         Self {
+            rival_x_group: Vec::new(),
             mode: byz.iter().map(|v| (*v, *BYZ_VOTE_MODES.choose(rng).unwrap())).collect(),
             seen_blocks: BTreeSet::new(),
             acted: BTreeSet::new(),
@@ -199,6 +255,14 @@ pub fn byz_step(cl: &Cluster, st: &mut ByzState, rng: &mut SRng) {
                     send_vote(cl, st, b, VK::NotarFallback, slot, Some(h), &correct);
                     send_vote(cl, st, b, VK::Final, slot, None, &correct);
                 }
+                ByzVote::RivalScript => {
+                    // a block first voted for by the X group is version A
+                    let first_voter = new_votes.iter().find(|v| v.kind == VK::Notar && v.slot == slot && v.hash == Some(h)).map(|v| v.signer);
+                    let is_a = first_voter.is_some_and(|f| st.rival_x_group.contains(&f));
+                    let targets: Vec<usize> = if is_a { correct.iter().copied().filter(|c| !st.rival_x_group.contains(c)).collect() } else { correct.clone() };
+                    send_vote(cl, st, b, VK::Notar, slot, Some(h), &targets);
+                    send_vote(cl, st, b, VK::Final, slot, None, &correct);
+                }
                 ByzVote::LateFinal => {
                     send_vote(cl, st, b, VK::Notar, slot, Some(h), &correct);
                     send_vote(cl, st, b, VK::SkipFallback, slot, None, &correct);
@@ -221,7 +285,7 @@ pub fn byz_step(cl: &Cluster, st: &mut ByzState, rng: &mut SRng) {
 
 /// Assembles certificates from all votes seen on the wire plus the adversary's own votes and
 /// forwards each to a random subset of the correct nodes (selective forwarding).
-pub fn byz_certs(cl: &Cluster, st: &mut ByzState, rng: &mut SRng, min_slot: u64) {
+pub fn byz_certs(cl: &Cluster, st: &mut ByzState, rng: &mut SRng, min_slot: u64, to_all: bool) {
     let correct = cl.correct();
     let Some(&from) = st.mode.keys().next() else { return };
     let mut by_key: BTreeMap<(VK, u64, Option<H32>), BTreeSet<usize>> = BTreeMap::new();
@@ -282,7 +346,7 @@ pub fn byz_certs(cl: &Cluster, st: &mut ByzState, rng: &mut SRng, min_slot: u64)
         let Some(c) = parts.decode() else { continue };
         let mut t = correct.clone();
         t.shuffle(rng);
-        let k = rng.random_range(0..=t.len());
+        let k = if to_all { t.len() } else { rng.random_range(0..=t.len()) };
         st.certs_sent += k as u64;
         cl.adv_send_consensus(from, &t[..k], &ConsensusMessage::Cert(c), true);
     }
